@@ -107,7 +107,11 @@ def _values(fn, rng):
         if r < 0.3: dst[rng.randrange(len(dst))] = -1
         elif r < 0.75 and n >= 2:
             # INVALID request (must be rejected by every kind): element count a proper divisor / a multiple / off by one
-            k = max(range(len(dst)), key=lambda q: dst[q]); m = rng.choice(["div", "div", "mul", "off"])
+            k = max(range(len(dst)), key=lambda q: dst[q]); m = rng.choice(["div", "div", "mul", "off", "neg", "neg"])
+            if m == "neg":       # negative extents other than the single -1 placeholder: an even number of them keeps the product right
+                if len(dst) == 1: dst = [-dst[0], -1] if dst[0] > 1 else [-2, -1]
+                else: dst[0] = -max(dst[0], 2) if dst[0] != 1 else -2; dst[1] = -max(dst[1], 2) if dst[1] != 1 else -3
+                return [s, dst]
             ds = [q for q in range(1, dst[k]) if dst[k] % q == 0]
             if m == "div" and ds: dst[k] = rng.choice(ds)
             elif m == "mul": dst[k] *= rng.randint(2, 3)
@@ -217,7 +221,8 @@ def _rows(fn, vals, rng, boost=False):
                 if e is None: ok = False; break
                 args.append(e)
             else:
-                args.append(_scalar("ct" if all(c == "ct" for c in combo) else "rt", v))
+                # scalars (axes ...) are compile-time constants when every list is a compile-time kind (constants and/or clipped integers)
+                args.append(_scalar("ct" if all(c in ("ct", "cl") for c in combo) and "ct" in combo else "rt", v))
         if not ok: continue
         name = "-".join(combo) if len(set(combo)) > 1 else combo[0]
         call = CALL[fn].format(*args)
@@ -409,7 +414,7 @@ def classify(line, impl, spec, model):
     fs = dict(x.split("=", 1) for x in spec.strip().strip(";").split(";") if "=" in x)
     bad = [k for k in fs if fi.get(k) != fs[k]]
     if (" S:remove_dims " in line and line.rstrip().endswith("I:1") and bad
-            and all((fi.get(k) == "trap-exception" and k.split(".")[0] in ("arr", "tup", "utup", "raw", "cl")) or k.split(".")[0] == "svt" for k in bad)):
+            and all((fi.get(k) == "trap-exception" and k.split(".")[0] in ("arr", "tup", "utup", "raw", "cl", "barr")) or k.split(".")[0] in ("svt", "bsvt") for k in bad)):
         return "remove_dims-runtime-keepdims-true-fixed-size-shape"
     def clamped(a, b):
         """a is b with some extents CLAMPED to a smaller value (same length, 1 <= a[i] <= b[i], a != b): the signature of the
